@@ -26,6 +26,11 @@ What is enumerated (exhaustively within the bound, no sampling):
               every byte quick; every bit thorough), top-level list / null / number / string / bool, every member
               replaced by every entry of the bad-value catalogue of its datatype (wrong kind, out of range), unknown
               keys, stale keys, missing keys; with and without a configured value.
+  restart     run 1 saves values changed at run time, run 2 restarts on that disk with an edited configuration: per
+              datatype kind x persistent flag {auto, on} one module class with a persistent parameter of every shape
+              {writable, readonly} x {own write_<p> method, none}; run-1 configuration {nothing, everything} x EVERY subset
+              of the four shapes configured in run 2 x configured value {differs from, equals} the stored one; observed
+              right after construction and after writeInitParams().
   roundtrip   every datatype of the type catalogue (depth <= 3; quick / thorough catalogue) x every valid value, set by a
               client (wire form) and by the driver (native form) -> saved -> loaded by a fresh node.
 
@@ -37,7 +42,9 @@ Oracle (from the statement, nothing more):
   S2 after an injected error, at the next moment a save is due the file equals the current values.
   S3 load(save(v)) == v: a node constructed on the saved file (configuration giving nothing) holds == values and
      exports the same wire value, and that value denotes what the client sent (catalogue reference model).
-  S4 a configured value wins over the stored one.
+  S4 a configured value wins over the stored one - for every parameter shape and every configured subset; "the
+     configured value" is what the same configuration gives on an empty disk; parameters not configured hold the stored
+     value (S3).
   S5 every damaged file still gives a started node; an entry is either taken (then the value held must denote the
      stored JSON value and lie in the value set of the datatype, by the reference model of the catalogue) or ignored
      (then the default applies); entries untouched by the damage must be taken when the file still is a JSON object.
@@ -1010,6 +1017,162 @@ def shard_corrupt(shard):
     return part
 
 
+# ---- S4 / S3 across a restart with an edited configuration: every parameter shape x every configured subset
+
+SHAPES = (('a', 'writable-with-write-method'), ('b', 'writable-without-write-method'),
+          ('c', 'readonly-with-write-method'), ('d', 'readonly-without-write-method'))
+SHAPE_NAMES = tuple(x for x, _ in SHAPES)
+
+
+def restart_class(kind, flag):
+    """one module class per (datatype kind, persistent flag) holding a persistent parameter of every shape
+    {writable, readonly} x {own write_<p> method, none}"""
+    e = env()
+    key = ('restartcls', kind, flag)
+    if key not in e:
+        P = e['P']
+        from frappy.modules import Module
+        spec = kinds()[kind].spec
+        attrs = {
+            'a': P.PersistentParam('a', T.build(spec), persistent=flag, readonly=False),
+            'b': P.PersistentParam('b', T.build(spec), persistent=flag, readonly=False),
+            'c': P.PersistentParam('c', T.build(spec), persistent=flag),
+            'd': P.PersistentParam('d', T.build(spec), persistent=flag),
+            'write_a': lambda self, value: value,
+            'write_c': lambda self, value: value,
+        }
+        e[key] = type(f'R_{kind}_{flag}', (P.PersistentMixin, Module), attrs)
+    return e[key]
+
+
+def _observe(cfg, image, part):
+    """start a node on the image; values of all shapes right after construction and after writeInitParams()
+    -> ('ok', values at construction, values after init, final image) | ('fail', what, text)"""
+    fs = MemFS(image)
+    with install(fs):
+        try:
+            node = build_node(dict(cfg))
+        except StartFailed as e:
+            return ('fail', e.what, e.text)
+        try:
+            m = node.secnode.modules['m']
+            v0 = {x: getattr(m, x) for x in SHAPE_NAMES}
+            m.writeInitParams()
+            v1 = {x: getattr(m, x) for x in SHAPE_NAMES}
+            return ('ok', v0, v1, fs, node, m)
+        except Exception as e:
+            node.close()
+            return ('fail', 'exc-after-start:' + type(e).__name__, repr(e))
+        finally:
+            part.transitions += len(fs.log)
+
+
+def check_restart(part, kind, flag, run1, given, equal):
+    """run 1: start (nothing / everything configured), values change at run time and are saved.
+    run 2: restart on that disk with a configuration giving exactly the parameters in `given` (values equal to /
+    different from the stored ones).  Configured parameters must hold the configured value, all others the stored one -
+    right after construction and after writeInitParams()."""
+    K = kinds()[kind]
+    cls = restart_class(kind, flag)
+    stored_v, other_v = K.drv[0], K.drv[1]
+    given = list(given)
+    case = {'sub': 'restart', 'kind': kind, 'flag': flag, 'run1': run1, 'given': given, 'equal': bool(equal)}
+    where = (f'kind {kind} ({T.sstr(K.spec)}), persistent={flag!r}; run 1 with {run1} configuration, every parameter set to '
+             f'{stored_v!r} at run time and saved; run 2 configured with '
+             f'{({x: (stored_v if equal else other_v) for x in given})!r}')
+    part.evaluations += 1
+    part.states += 1
+    # ---- run 1
+    cfg1 = {'cls': cls}
+    if run1 == 'full':
+        for x in SHAPE_NAMES:
+            cfg1[x] = {'value': other_v}
+    r1 = _observe(cfg1, EMPTY, part)
+    if r1[0] != 'ok':
+        part.outcomes['restart:run-1-start-refused'] += 1
+        part.violation(f'C17:restart:run-1:start-up-{norm(r1[1])}', case, f'{where}: run 1 does not start: {r1[1]} {r1[2]}')
+        return
+    _ok, _v0, _v1, fs1, node1, m1 = r1
+    try:
+        with install(fs1):
+            exc = None
+            try:
+                for x in SHAPE_NAMES:
+                    setattr(m1, x, stored_v)
+                m1.saveParameters()
+            except Exception as e:
+                exc = e
+            live = {x: getattr(m1, x) for x in SHAPE_NAMES}
+            part.transitions += len(fs1.log)
+    finally:
+        node1.close()
+    image1 = fs1.image()
+    if exc is not None or parse(content(image1))[0] != 'object':
+        part.outcomes['restart:run-1-save-fails'] += 1
+        part.violation(f'C17:restart:run-1:save-fails:{type(exc).__name__ if exc else "file-" + parse(content(image1))[0]}', case,
+                       f'{where}: run 1 could not save: {exc!r}; file {content(image1)!r}')
+        return
+    # ---- run 2 and its reference (the same configuration on an empty disk: what "the configured value" is)
+    cfg2 = {'cls': cls}
+    for x in given:
+        cfg2[x] = {'value': stored_v if equal else other_v}
+    r2 = _observe(cfg2, image1, part)
+    ref = _observe(cfg2, EMPTY, part)
+    for r in (r2, ref):
+        if r[0] == 'ok':
+            r[4].close()
+    if ref[0] != 'ok':
+        raise core.Inconclusive(f'{where}: the run-2 configuration does not start on an empty disk: {ref[1]} {ref[2]}')
+    if r2[0] != 'ok':
+        part.outcomes['restart:run-2-start-refused'] += 1
+        part.violation(f'C17:restart:run-2:start-up-{norm(r2[1])}', case,
+                       f'{where}: the restart on {content(image1)!r} fails: {r2[1]} {r2[2]}')
+        return
+    if given and not equal:
+        part.nontrivial += 1
+    shapes = dict(SHAPES)
+    for x in SHAPE_NAMES:
+        part.traces += 1
+        problem = None
+        for when, held, refv in (('at-construction', r2[1], ref[1]), ('after-writeInitParams', r2[2], ref[2])):
+            if x in given:
+                if not held[x] == refv[x]:
+                    how = 'stored-value-overrides-configured' if held[x] == live[x] else 'configured-value-not-applied'
+                    problem = (how, when, f'{x} ({shapes[x]}) is configured as {refv[x]!r}, the file holds the run-1 value '
+                                          f'{live[x]!r}, the restarted module holds {held[x]!r} {when}')
+            elif not held[x] == live[x]:
+                problem = ('stored-value-not-restored', when,
+                           f'{x} ({shapes[x]}) is not configured, run 1 saved {live[x]!r}, the restarted module holds '
+                           f'{held[x]!r} {when}')
+            if problem:
+                break
+        part.outcomes[f'restart:{shapes[x]}:{"configured" if x in given else "stored"}:'
+                      f'{"ok" if not problem else problem[0]}'] += 1
+        if problem:
+            part.violation(f'C17:restart:{shapes[x]}:persistent-{flag}:{problem[0]}:{problem[1]}', case,
+                           f'{where}; file {content(image1)!r}: {problem[2]}')
+    if part.evaluations % 41 == 1:
+        part.sample({'restart': where, 'file': repr(content(image1))[:120], 'held_after_restart': repr(r2[2])[:120]})
+
+
+def restart_cases():
+    import itertools
+    for flag in ('auto', 'on'):
+        for run1 in ('plain', 'full'):
+            for n in range(len(SHAPE_NAMES) + 1):
+                for given in itertools.combinations(SHAPE_NAMES, n):
+                    for equal in (False, True):
+                        yield flag, run1, given, equal
+
+
+def shard_restart(shard):
+    _sub, kind = shard
+    part = core.Part()
+    for flag, run1, given, equal in restart_cases():
+        check_restart(part, kind, flag, run1, given, equal)
+    return part
+
+
 # ---- S3 over the whole type catalogue
 
 def rt_class(spec):
@@ -1160,7 +1323,7 @@ def shard_fn(shard):
     kinds()
     try:
         return {'history': shard_history, 'construct': shard_construct, 'corrupt': shard_corrupt,
-                'roundtrip': shard_roundtrip}[shard[0]](shard)
+                'roundtrip': shard_roundtrip, 'restart': shard_restart}[shard[0]](shard)
     except HealthyDiskFails as e:
         return healthy_fails(core.Part(), e)
 
@@ -1193,6 +1356,8 @@ def run(ctx):
     if not only or 'corrupt' in only:
         ctx.pmap(shard_fn, [('corrupt', k, c, lo, lo + 2) for k in names for c in ('plain', 'given') for lo in (0, 2, 4, 6)],
                  name='corrupt')
+    if not only or 'restart' in only:
+        ctx.pmap(shard_fn, [('restart', k) for k in names], name='restart')
     if not only or 'roundtrip' in only:
         types = T.all_types(ctx.tier, b['rt_depth'])
         ctx.pmap(shard_fn, [('roundtrip', types[i:i + 8]) for i in range(0, len(types), 8)], name='roundtrip')
@@ -1203,9 +1368,12 @@ def run(ctx):
         'one recorded dry run; (a)+(b) a process crash before every file-system operation and after the last x every prefix of '
         'the unflushed bytes of the open handle (= every torn write), each distinct image recovered by a freshly constructed real '
         'node; (c) OSError(EIO) from every mutating operation of every step, history continued.  [construct] the same for start-up '
-        'on 5 initial disks.  [corrupt] every listed damage of a stored file x {plain, configured}.  [roundtrip] type catalogue x '
+        'on 5 initial disks.  [corrupt] every listed damage of a stored file x {plain, configured}.  [restart] module kinds x '
+        'persistent flag {auto, on} x parameter shapes {writable, readonly} x {own write method, none} x run-1 configuration '
+        '{nothing, everything} x every subset of the shapes configured at the restart x configured value {differs from, equals} '
+        'the stored one, observed at construction and after writeInitParams.  [roundtrip] type catalogue x '
         'valid values x {client, driver}.  evaluations = crash cases (point x prefix) + injected errors + damaged files + round '
-        'trips; states = distinct (step, disk image) pairs / distinct damaged files / round-trip cases; distinct_nontrivial = '
+        'trips + restarts; states = distinct (step, disk image) pairs / distinct damaged files / round-trip cases; distinct_nontrivial = '
         'crash images that differ from every quiescent image of the fault-free run + injected errors + real damages + round trips '
         'that wrote the file; transitions = file-system operations executed by real code (dry runs, injected runs, recoveries)')
     ctx.coverage.update(
@@ -1269,6 +1437,8 @@ def _replay(case, part):
                 break
     elif sub == 'roundtrip':
         check_roundtrip(part, T.fromjson(case['spec']), only=case)
+    elif sub == 'restart':
+        check_restart(part, case['kind'], case['flag'], case['run1'], case['given'], case['equal'])
     elif sub == 'base':
         try:
             base_image(case['kind'])
